@@ -51,17 +51,21 @@ BOUNDS = {
     "quick": "18 commensurability-requiring binary keys of _ufunc_registry x forms {call, operator, out=quantity, out=ndarray, outer, at, "
              "reduce(initial=bare), in-place} x operand kinds {same unit, same dimension other unit, different dimension, dimensionless, "
              "scaled-dimensionless (percent-like, ANY positive scale), bare scalar, bare array, python list, list of quantities "
-             "same/other/mixed} (left: the 5 quantity kinds + bare scalar + bare array; right: all 11) x shapes ((),()) in all forms, and for "
+             "same/other/mixed, and the same-spelling kinds: same symbol and scale but another dimension in a second registry, same symbol "
+             "and dimension with another scale in a third registry, a symbol removed and re-added with another dimension while the old "
+             "Unit is alive (these are paired with the same-unit operand / list and with each other)} (left: the quantity kinds + bare "
+             "scalar + bare array; right: all) x shapes ((),()) in all forms, and for "
              "add/subtract/less/equal/not_equal/maximum/remainder/hypot/divmod also ((2,),()) without outer/out=quantity and ((2,),(2,)) "
              "in call and in-place form; every ordered pair of 12 dimensions (temperature also with symbolic "
-             "offsets) per key in call and operator form; 9 unit-free binary keys (raise => operands intact only); 31 array-function call "
+             "offsets) per key in call and operator form, once with differently named units and once with ONE symbol of ONE scale defined per "
+             "dimension in separate registries; 9 unit-free binary keys (raise => operands intact only); 31 array-function call "
              "shapes (concatenate x2, stack, vstack, hstack, dstack, column_stack, block, append, where, choose, select x2, linspace, "
              "geomspace, intersect1d, union1d, setdiff1d, isin, interp, searchsorted, clip x2, insert, place, put, putmask, put_along_axis, "
              "fill_diagonal, copyto x2) x 6 kinds of first operand x 11 kinds of second; __setitem__ (5 index forms) and the "
              "fill/put/searchsorted methods x 11 value kinds; to/in_units/to_value/convert_to_units with string and Unit targets and "
-             "Unit +,-,+=,-= over every ordered dimension pair",
+             "Unit +,-,+=,-= over every ordered dimension pair; .to() family also onto same-spelling Unit objects of other registries",
     "thorough": "as quick with all 11 kinds on both sides, every distinct dimension of the registry pairwise (51: 2601 ordered pairs), and "
-                "the shape pairs ((),(2,)) in all forms, ((2,2),(2,)) call/operator/in-place/out=, ((2,),(2,2)) call/operator, ((2,2),()) "
+                "the shape pairs ((2,),(2,)) in all forms (outer only for the keys whose loops do not branch) and ((),(2,)) in all forms, ((2,2),(2,)) call/operator/in-place/out=, ((2,),(2,2)) call/operator, ((2,2),()) "
                 "call/in-place/at/reduce, ((2,2),(2,2)) call; for the comparison and min/max keys (whose NumPy loops branch per element "
                 "pair) the (2,2) shapes are run with quantity kinds on both sides only",
 }
@@ -79,7 +83,7 @@ OUTSIDE = ("IEEE rounding/overflow/nan (A1): a path on which NumPy's loop divide
            "the receiving array's unit (NumPy assignment semantics, documented in _validate_units_consistency_v2): only operands that "
            "carry units are compared there. The shape of the ==/!= constant answer is not checked here (C06/C16).")
 
-NAMES = ["xa", "xb", "xc", "xp"]
+NAMES = ["xa", "xb", "xc", "xp", "xt"]
 
 # ------------------------------------------------------------------------------------------------ oracle tables
 # written from the property text ("adding, subtracting, ordering, taking min/max, hypot, remainder, arctan2, clipping ..."),
@@ -110,11 +114,29 @@ REFLECTED = {"add": "__radd__", "subtract": "__rsub__", "remainder": "__rmod__",
              "floor_divide": "__rfloordiv__", "power": "__rpow__"}
 INPLACE = {"add": operator.iadd, "subtract": operator.isub, "remainder": operator.imod}
 
-QUANTITY_KINDS = ["same", "samedim", "diffdim", "dimless", "percent"]
+# twin_dim: the SAME symbol "xa" with the SAME scale symbol but ANOTHER dimension, defined in a second registry;
+# twin_scale: the same symbol and dimension with another (symbolic) scale in a third registry (commensurable: no C01 demand
+# beyond 'a raise leaves the operands intact'); redim_old/redim_new: one registry in which "xa" is removed and re-added with
+# another dimension at the same scale while the Unit object made before is still alive (spelling and scale agree, dimension not)
+TWIN_KINDS = ["twin_dim", "twin_scale", "redim_old", "redim_new"]
+QUANTITY_KINDS = ["same", "samedim", "diffdim", "dimless", "percent"] + TWIN_KINDS
 BARE_KINDS = ["bscalar", "barray", "blist"]
 QLIST_KINDS = ["qlist_same", "qlist_diff", "qlist_mixed"]
 KINDS = QUANTITY_KINDS + BARE_KINDS + QLIST_KINDS
 LISTS = ["blist"] + QLIST_KINDS
+
+
+def twin_ok(k0, k1):
+    """the twin kinds are paired with the operands they can be confused with (same spelling), not with the whole matrix"""
+    t0, t1 = k0 in TWIN_KINDS, k1 in TWIN_KINDS
+    if not (t0 or t1):
+        return True
+    if "redim_old" in (k0, k1) or "redim_new" in (k0, k1):
+        return {k0, k1} == {"redim_old", "redim_new"}
+    other = k1 if t0 else k0
+    if t0 and t1:
+        return k0 != k1
+    return other in ("same", "qlist_same")
 
 # labels of the obligations that fail on the unchanged tree (each is listed in known_findings.json); kept apart from the
 # obligation next to them that must hold even with the defect, so that nothing else is masked
@@ -124,7 +146,8 @@ L_DIVMOD = "divmod returns for incommensurable operands"
 L_REDINIT = "reduce(initial=nonzero bare number) on a dimensional array returns"
 L_SETD = "__setitem__ stores a dimensionless quantity into a dimensional array"
 L_SETL = "__setitem__ stores a list of quantities ignoring their units"
-L_COPYTO = "copyto returns for incommensurable operands"
+L_COPYTO = "copyto without mask returns for incommensurable operands (dst relabelled)"
+L_COPYLIST = "copyto stores a list of quantities ignoring their units"
 L_METHOD = "ndarray method not overridden by unyt combines incommensurable operands"
 
 
@@ -195,6 +218,29 @@ class World:
         ctx.add_row(reg, "xp", D.dimensionless, ctx.real("xp_s", pos=True))
         self.reg = reg
         self.deferred = {}
+        self.D0, self.D1 = D0, D1
+        self.twins = {}
+
+    def twin_unit(self, kind):
+        """Unit object of a twin kind (registries are built on first use)"""
+        ctx = self.ctx
+        Unit = ctx.mods["unyt"].Unit
+        key = "redim" if kind.startswith("redim") else kind
+        if key not in self.twins:
+            reg = ctx.registry([])
+            if key == "twin_dim":
+                ctx.add_row(reg, "xa", self.D1, ctx.real("xa_s", pos=True))
+                self.twins[key] = {kind: Unit("xa", registry=reg)}
+            elif key == "twin_scale":
+                ctx.add_row(reg, "xa", self.D0, ctx.real("xb_s", pos=True))
+                self.twins[key] = {kind: Unit("xa", registry=reg)}
+            else:
+                ctx.add_row(reg, "xa", self.D0, ctx.real("xa_s", pos=True))
+                old = Unit("xa", registry=reg)
+                reg.remove("xa")
+                ctx.add_row(reg, "xa", self.D1, ctx.real("xa_s", pos=True))
+                self.twins[key] = {"redim_old": old, "redim_new": Unit("xa", registry=reg)}
+        return self.twins[key][kind]
 
     def vals(self, tag, shape):
         """element symbols tag_0, tag_1, ... (row-major): every operand of a case draws on the same few symbols, so that the
@@ -211,6 +257,10 @@ class World:
 
     def operand(self, kind, shape, tag):
         ctx, reg = self.ctx, self.reg
+        if kind in TWIN_KINDS:
+            dim = {"twin_dim": self.n1, "twin_scale": self.n0, "redim_old": self.n0, "redim_new": self.n1}[kind]
+            q = ctx.quantity(self.vals(tag, shape), self.twin_unit(kind), None)
+            return Opd(kind, q, dim, elements(q.d), [q], False, shape)
         if kind in QUANTITY_KINDS:
             unit = {"same": "xa", "samedim": "xb", "diffdim": "xc", "dimless": "dimensionless", "percent": "xp"}[kind]
             dim = {"same": self.n0, "samedim": self.n0, "diffdim": self.n1}.get(kind, "dimensionless")
@@ -575,6 +625,35 @@ def make_dims_case(name, cat, with_offsets):
                 budget_s=3000, max_paths=2000, weight=30, conform=False)
 
 
+def make_dims_twin_case(name, cat):
+    """the SAME symbol "xt" with the SAME scale in one registry per dimension: every ordered pair of dimensions; the operands'
+    units agree in spelling and scale and differ in dimension only (call form; operator form for i < j)"""
+    def h(ctx):
+        sa = ctx.real("xa_s", pos=True)
+        W = World.__new__(World)
+        W.ctx, W.reg, W.deferred = ctx, None, {}
+        p, q = ctx.real("p_0"), ctx.real("q_0")
+        left, right = [], []
+        for dn, Dm in cat:
+            reg = ctx.registry([])
+            ctx.add_row(reg, "xt", Dm, sa)
+            ql, qr = ctx.quantity(p, "xt", reg), ctx.quantity(q, "xt", reg)
+            left.append(Opd("left", ql, dn, elements(ql.d), [ql], False, ()))
+            right.append(Opd("right", qr, dn, elements(qr.d), [qr], False, ()))
+        sym_standin = ctx.symbolic and name in STANDIN
+        uf = (lambda x0, x1: sym_ufunc(ctx, name, x0, x1)) if sym_standin else getattr(np, name)
+        known = L_DIVMOD if name == "divmod" else None
+        for i, a in enumerate(left):
+            for j, b in enumerate(right):
+                tag = f"{name}[xt:{a.dim}|xt:{b.dim}]"
+                judge(ctx, W, tag + ".call", name, xcall(uf, a.value, b.value), [a, b], "require", known)
+                if name in OPERATOR and i < j:
+                    judge(ctx, W, tag + ".op", name, xcall(uf if sym_standin else OPERATOR[name], a.value, b.value), [a, b], "require", known)
+        W.flush()
+    return Case(f"C01/dims/{name}/twin", h, bounds=f"{len(cat)}x{len(cat)} ordered dimension pairs, same symbol and scale in one registry each",
+                budget_s=3000, max_paths=2000, weight=30, conform=False)
+
+
 # ------------------------------------------------------------------------------------------------ array functions
 # oracle table: name -> (klass, builder(ctx, np, a, b) -> callable result, shapes of (a, b), target): `a`/`b` are Opd; the
 # parameters that the function merges/compares/assigns are exactly a and b; target=True: the function writes into a copy of a.
@@ -627,13 +706,13 @@ AF_TARGET = {
     "copyto": ("assign", lambda np_, c, x1: np_.copyto(c, x1), [((2,), ()), ((2,), (2,))]),
     "copyto_where": ("assign", lambda np_, c, x1: np_.copyto(c, x1, where=_mask(2)), [((2,), (2,))]),
 }
-AF_KNOWN = {"copyto": L_COPYTO, "copyto_where": L_COPYTO}
+AF_KNOWN = {"copyto": L_COPYTO}  # the masked form converts or raises since 3bb224c; the unmasked one still relabels dst
 AF_K0 = QUANTITY_KINDS + ["barray"]
 AF_K1 = KINDS
 
 
 def af_applicable(fname, k0, k1, s1):
-    if not (k0 in QUANTITY_KINDS or k1 in QUANTITY_KINDS):
+    if not (k0 in QUANTITY_KINDS or k1 in QUANTITY_KINDS) or not twin_ok(k0, k1):
         return False
     if k1 == "bscalar" and s1 != ():
         return False
@@ -659,7 +738,8 @@ def make_af_case(fname, k0, k1, shapes, dims):
         b = W.operand(k1, s1, "q")
         tgt = a.copy("target") if target else a
         res = xcall(fn, np, tgt.value, b.value)
-        judge(ctx, W, f"{fname}({k0},{k1})", fname, res, [tgt, b], klass, AF_KNOWN.get(fname))
+        known = L_COPYLIST if (fname.startswith("copyto") and k1 in QLIST_KINDS) else AF_KNOWN.get(fname)
+        judge(ctx, W, f"{fname}({k0},{k1})", fname, res, [tgt, b], klass, known)
         W.flush()
     return Case(f"C01/af/{fname}/{k0}+{k1}/{shstr(s0)}_{shstr(s1)}", h, bounds="symbolic: elements, scales", budget_s=3000, max_paths=6000,
                 weight=4, conform=fname != "geomspace")
@@ -700,9 +780,7 @@ def make_assign_case(group, form, k0, k1, table, dims):
         tag = f"{group}.{form}({k0},{k1})"
         known = None
         if group == "setitem":
-            if k1 in QLIST_KINDS:
-                known = L_SETL
-            elif b.dim == "dimensionless" and not b.bare:
+            if b.dim == "dimensionless" and not b.bare:  # (a list of quantities is validated since 24f44a2)
                 known = L_SETD
         else:
             known = L_METHOD
@@ -756,6 +834,29 @@ def make_convert_case(entry, cat, as_string):
                 budget_s=3000, max_paths=2000, weight=20, conform=False)
 
 
+def make_convert_twin_case(entry, dims):
+    """q in xa (registry 1) converted to the Unit object xa of another registry: same spelling and scale but another dimension
+    (must raise), same spelling and dimension but another scale (no demand), and the re-dimensioned xa of one registry"""
+    def h(ctx):
+        W = World(ctx, *dims)
+        for src, tgt in (("same", "twin_dim"), ("twin_dim", "same"), ("same", "twin_scale"), ("redim_old", "redim_new"),
+                         ("redim_new", "redim_old")):
+            a = W.operand(src, (2,), "p")
+            tu = W.twin_unit(tgt) if tgt in TWIN_KINDS else ctx.mods["unyt"].Unit("xa", registry=W.reg)
+            tdim = {"twin_dim": W.n1, "twin_scale": W.n0, "redim_old": W.n0, "redim_new": W.n1, "same": W.n0}[tgt]
+            t = Opd("target-unit", tu, tdim, [], [], False, ())
+            facts = (str(tu), tu.dimensions, tu.base_value, tu.base_offset)
+            tag = f"{entry}[{src}>{tgt}]"
+            res = xcall(CONVERT[entry], a.value, tu)
+            judge(ctx, W, tag, entry, res, [a, t], "merge")
+            if res[0] == "raise":
+                now = (str(tu), tu.dimensions, tu.base_value, tu.base_offset)
+                ctx.require(f"{tag}: target unit unchanged after raise",
+                            And(now[0] == facts[0], now[1] == facts[1], exact_eq(now[2], facts[2]), exact_eq(now[3], facts[3])))
+        W.flush()
+    return Case(f"C01/convert/{entry}/twin", h, bounds="same symbol in two registries / re-dimensioned symbol", budget_s=600, weight=3)
+
+
 def make_unit_addsub_case(cat):
     """Unit + Unit, Unit - Unit (and in-place): never a value, whatever the dimensions; both units intact"""
     def h(ctx):
@@ -789,7 +890,7 @@ def make_unit_addsub_case(cat):
 
 def _kind_pairs():
     for k0, k1 in itertools.product(KINDS, KINDS):
-        if k0 in QUANTITY_KINDS or k1 in QUANTITY_KINDS:
+        if (k0 in QUANTITY_KINDS or k1 in QUANTITY_KINDS) and twin_ok(k0, k1):
             yield k0, k1
 
 
@@ -847,12 +948,16 @@ def cases(tier, mods):
                         continue  # a list has 2 elements whatever the nominal shape: covered by ((),()) and ((2,),(2,))
                     if (2, 2) in (s0, s1) and name in FORKING and not (k0 in QUANTITY_KINDS and k1 in QUANTITY_KINDS):
                         continue  # zero-scan forks x element-comparison forks: thousands of paths per case; cut (see BOUNDS)
+                    if (s0, s1) == ((2,), (2,)) and name in FORKING:
+                        forms = [f for f in forms if f != "outer"]  # 4 element pairs x 3 outcomes each on top of the zero scan
                     out.append(make_ufunc_case(name, k0, k1, s0, s1, *dims, forms=forms))
             out.append(make_dims_case(name, cat, False))
             out.append(make_dims_case(name, cat, True))
+            out.append(make_dims_twin_case(name, cat))
         elif name in FREE and name not in FREE_NOT_RUN:
             sh = [((2,), (2,))] if name in ("matmul", "vecdot") else [((), ()), ((2,), (2,))]
-            for k0, k1 in (("same", "diffdim"), ("same", "bscalar"), ("barray", "diffdim"), ("same", "qlist_mixed"), ("diffdim", "percent")):
+            for k0, k1 in (("same", "diffdim"), ("same", "bscalar"), ("barray", "diffdim"), ("same", "qlist_mixed"), ("diffdim", "percent"),
+                           ("same", "twin_dim"), ("redim_old", "redim_new")):
                 for s0, s1 in sh:
                     if _ok_shape(k0, s0) and _ok_shape(k1, s1):
                         out.append(make_ufunc_case(name, k0, k1, s0, s1, *dims, forms=["call", "op", "out_q", "outer"], group="free"))
@@ -864,14 +969,15 @@ def cases(tier, mods):
                         out.append(make_af_case(fname, k0, k1, shp, dims))
     for form in SETITEM:
         for k0, k1 in itertools.product(QUANTITY_KINDS, KINDS):
-            if assign_applicable(k1, SETITEM[form][1]):
+            if assign_applicable(k1, SETITEM[form][1]) and twin_ok(k0, k1):
                 out.append(make_assign_case("setitem", form, k0, k1, SETITEM, dims))
     for form in METHODS:
         for k0, k1 in itertools.product(("same", "dimless"), KINDS):
-            if assign_applicable(k1, METHODS[form][1]):
+            if assign_applicable(k1, METHODS[form][1]) and twin_ok(k0, k1):
                 out.append(make_assign_case("method", form, k0, k1, METHODS, dims))
     for entry in CONVERT:
         for as_string in (True, False):
             out.append(make_convert_case(entry, cat, as_string))
+        out.append(make_convert_twin_case(entry, dims))
     out.append(make_unit_addsub_case(cat))
     return out
